@@ -321,6 +321,9 @@ func evalC09(c *engine.Case) engine.Verdict {
 	if well {
 		v.Class("well-behaved")
 	}
+	if hasFailing(sc) {
+		v.Class("has-failing-converter")
+	}
 	if diverged {
 		v.Class("twin-diverged-after-redefined-call")
 	}
@@ -332,6 +335,11 @@ func genC09(g engine.G) *engine.Case {
 	o := engine.DefaultFuncOpts()
 	o.AllowOnce = true
 	o.FailP = 0
+	if g.Pct(25) {
+		// failing (and memoized failing) converters; twin comparisons are
+		// off for these scenarios, the Redefine-side invariants stay on
+		o.ErrP, o.FailP = 60, 35
+	}
 	var sc *engine.Scenario
 	pal := engine.GenPalette(g, g.Pct(30), g.Pct(40))
 	b := engine.NewBuilder(g, pal, o)
